@@ -109,6 +109,8 @@ func exprPrec(e Expr) prec {
 		*TypelessStructLiteral, *NullLiteral, *BoolLiteral, *IntLiteral, *FloatLiteral, *StringLiteral, *BytesLiteral,
 		*DateLiteral, *TimestampLiteral, *NumericLiteral, *JSONLiteral, *WithExpr:
 		return precLit
+	case *NewConstructor, *BracedNewConstructor, *BracedConstructor, *ReplaceFieldsExpr:
+		return precLit
 	case *IndexExpr, *SelectorExpr:
 		return precSelector
 	case *InExpr, *IsNullExpr, *IsBoolExpr, *BetweenExpr:
